@@ -592,6 +592,20 @@ def run_settings(rep, rng, sb: Path):
         ok = await fetch(f"https://127.0.0.1:{mtls.port}/repo", verify=str(certs / "ca.pem"),
                          cert=str(certs / "client_combined.pem"))
         check("client certificate (combined file) reaches the server", ok, True)
+        # the same through the real Config: `set certificate` without `set private_key` (Config yields "")
+        from apt_mirror.config import Config
+        cfgd = sb / "cfg"
+        cfgd.mkdir(exist_ok=True)
+        (cfgd / "mirror.list").write_text(
+            f"set base_path {cfgd}\nset certificate {certs / 'client_combined.pem'}\nset ca_certificate {certs / 'ca.pem'}\n"
+            f"deb https://127.0.0.1:{mtls.port}/repo stable main\n")
+        cfg = Config(cfgd / "mirror.list", str(cfgd))
+        try:
+            ok = await fetch(f"https://127.0.0.1:{mtls.port}/repo", verify=cfg.verify_ca_certificate,
+                             cert=cfg.client_certificate, key=cfg.client_private_key)
+        except Exception as e:  # noqa: BLE001 - the downloader could not even be constructed
+            ok = False
+        check("client certificate configured without private_key (settings taken from Config) reaches the server", ok, True)
         check("no client certificate => refused by the server",
               await fetch(f"https://127.0.0.1:{mtls.port}/repo", verify=str(certs / "ca.pem")), False)
         for s in (plain, tls, mtls, px):
